@@ -28,20 +28,22 @@ fn main() {
     // glue: Dyn impls for the #host types, argument/return dispatch per host function
     let mut g = String::new();
     for d in struct_defs() {
-        writeln!(g, "impl Dyn for {} {{", d.name).unwrap();
+        let path = rust_path(d.name);
+        writeln!(g, "impl Dyn for {} {{", path).unwrap();
         writeln!(g, "    fn to_v(&self) -> V {{ V::Tup(vec![{}]) }}", d.fields.iter().map(|(f, _)| format!("self.{f}.to_v()")).collect::<Vec<_>>().join(", ")).unwrap();
-        writeln!(g, "    fn from_v(v: &V) -> Self {{ let V::Tup(f) = v else {{ panic!(\"struct value expected\") }}; {} {{ {} }} }}", d.name,
+        writeln!(g, "    fn from_v(v: &V) -> Self {{ let V::Tup(f) = v else {{ panic!(\"struct value expected\") }}; {} {{ {} }} }}", path,
             d.fields.iter().enumerate().map(|(i, (f, _))| format!("{f}: Dyn::from_v(&f[{i}])")).collect::<Vec<_>>().join(", ")).unwrap();
         writeln!(g, "}}").unwrap();
     }
     for d in enum_defs() {
-        writeln!(g, "impl Dyn for {} {{", d.name).unwrap();
+        let path = rust_path(d.name);
+        writeln!(g, "impl Dyn for {} {{", path).unwrap();
         writeln!(g, "    fn to_v(&self) -> V {{ match self {{").unwrap();
         for (i, (v, fs)) in d.variants.iter().enumerate() {
             if fs.is_empty() {
-                writeln!(g, "        {}::{} => V::Variant({i}, None),", d.name, v).unwrap();
+                writeln!(g, "        {}::{} => V::Variant({i}, None),", path, v).unwrap();
             } else {
-                writeln!(g, "        {}::{}(value) => V::Variant({i}, Some(Box::new(value.to_v()))),", d.name, v).unwrap();
+                writeln!(g, "        {}::{}(value) => V::Variant({i}, Some(Box::new(value.to_v()))),", path, v).unwrap();
             }
         }
         writeln!(g, "    }} }}").unwrap();
@@ -49,9 +51,9 @@ fn main() {
         writeln!(g, "    fn from_v(v: &V) -> Self {{ let V::Variant(tag, {pname}) = v else {{ panic!(\"enum value expected\") }}; match tag {{").unwrap();
         for (i, (v, fs)) in d.variants.iter().enumerate() {
             if fs.is_empty() {
-                writeln!(g, "        {i} => {}::{},", d.name, v).unwrap();
+                writeln!(g, "        {i} => {}::{},", path, v).unwrap();
             } else {
-                writeln!(g, "        {i} => {}::{}(Dyn::from_v(p.as_ref().unwrap())),", d.name, v).unwrap();
+                writeln!(g, "        {i} => {}::{}(Dyn::from_v(p.as_ref().unwrap())),", path, v).unwrap();
             }
         }
         writeln!(g, "        _ => panic!(\"bad tag\"),").unwrap();
